@@ -74,6 +74,16 @@ EXTRA = {
     'skip_region_first': ['cat', ['skip_region', 'hidden words $'], A, ' ', B],
     'comment_first': ['cat', ['comment', ' hidden'], A, ' ', B],
     'label_first': ['cat', ['label', 'k'], A, ' ', B],
+    # trial expansion of a heading holding a footnote and a construct whose handler evaluates
+    # an argument itself
+    'heading_footnote_hspace': ['cat', ['heading', ['cat', T('Sum'), ['footnote', T('Only prelim')], ' ',
+                                 ['G', '\\hspace{1cm}', None], ' ', T('of results')]], '\n', A, ' ', B],
+    'heading_footnote_phantom': ['cat', ['heading', ['cat', T('Sum'), ['footnote', T('Only prelim')], ' ',
+                                  ['G', '\\phantom{xx}', None], ' ', T('of results')], 'subsection'], '\n', A],
+    # detached flows collected before a file is read with \LTinput
+    'footnote_then_ltinput': ['cat', A, ['footnote', T('Early foot')], ' ',
+                              ['G', '\\LTinput{/verif/vf/data/defs_mo.tex}', None], ' ', B,
+                              ['footnote', T('Late foot')], ' ', A],
     'tabular_pos': ['cat', A, ' ', ['G', '\\begin{tabular}[t]{ll}', None], T('a'), ' ', ['special', '&'],
                     ' ', B, ['G', '\\end{tabular}', None], ' ', A],
 }
